@@ -4,7 +4,10 @@ use crate::engine::Ctx;
 pub mod c11;
 pub mod c12;
 pub mod c13;
+pub mod c15;
 pub mod c16;
+pub mod c18;
+pub mod common;
 pub mod statgen;
 
 pub fn run(id: &str, ctx: &mut Ctx) -> bool {
@@ -12,7 +15,9 @@ pub fn run(id: &str, ctx: &mut Ctx) -> bool {
         "C11" => c11::run(ctx),
         "C12" => c12::run(ctx),
         "C13" => c13::run(ctx),
+        "C15" => c15::run(ctx),
         "C16" => c16::run(ctx),
+        "C18" => c18::run(ctx),
         _ => return false,
     }
     true
